@@ -412,6 +412,16 @@ example : (((requestView plainOpaque (danceEnviron "http".toList "example.com:80
     "/é %41?x".toList "q=é".toList)).toOption.map (fun r => r.url)))
     = some "http://example.com:8080/app/é%20%2541%3Fx?q=é".toList := by decide
 
+/-- `werkzeug.wsgi.get_current_url(environ)` - the environ-level public function, modelled as
+`sansio.get_current_url` after the WSGI decoding dance (repair 16e16ac, former finding F15e) - is
+exactly `Request(environ).url`, for every environ; so `environ_url_roundtrip_partial` covers it too. -/
+theorem wsgi_current_url_is_request_url (o : UrlOpaque) (e : Environ) :
+    wsgiCurrentUrl o e false false false = (requestView o e).map (fun r => r.url) :=
+  wsgiCurrentUrl_eq_request_url o e
+
+example : (wsgiCurrentUrl plainOpaque (danceEnviron "http".toList "localhost".toList [] "/café".toList [])
+    false false false).toOption = some "http://localhost/café".toList := by decide
+
 /-- **`get_host` drops the scheme's default port as a suffix and nothing else**: the reported host is
 the Host header with `:80` (http, ws) resp. `:443` (https, wss) cut off its end, or the header itself -
 `10.0.0.80:80` gives `10.0.0.80`, never `10.0.0.`. -/
